@@ -1,0 +1,19 @@
+// SPDX-FileCopyrightText: 2026 The Pion community <https://pion.ly>
+// SPDX-License-Identifier: MIT
+
+//go:build verif
+
+package gcc
+
+// VerifSizes returns the queue length and the number of registered writers of the pacer
+// (verification harness only).
+func (p *LeakyBucketPacer) VerifSizes() map[string]int {
+	p.qLock.RLock()
+	q := p.queue.Len()
+	p.qLock.RUnlock()
+	p.writerLock.RLock()
+	w := len(p.ssrcToWriter)
+	p.writerLock.RUnlock()
+
+	return map[string]int{"queue": q, "writers": w}
+}
